@@ -231,6 +231,7 @@ pub fn run(ctx: &Ctx) -> i32 {
     stats.merge(fstats);
     if tier == Tier::Thorough {
         fuzz_campaign(ctx, "fuzz_step", 8, 400_000, 64, &mut stats);
+        fuzz_campaign(ctx, "fuzz_prog", 8, 300_000, 136, &mut stats);
     }
     stats.exhaustive_subspaces.insert("second words per multi-word prefix class".into(), 65536 * prefixes(tier).iter().map(|p| p.1.len() as u64).sum::<u64>());
     stats.exhaustive_subspaces.insert("third words of 0100/0140 78r0".into(), 65536 * 7);
